@@ -10,7 +10,7 @@ Functions under contract (all obligations generated from the source in the tree 
     BSL._para_logit_transform / _para_logit_back_transform   back(fwd(x)) = x, fwd(back(y)) = y per bound type and for mixed vectors
     BSL._jacobian_logit_transform                            logJ = log|det d back/dy| of the EXTRACTED back-transform
     BSL._get_mh_ratio end to end                             real static helpers bound, clip by path forking + z3
-    gaussian_syn_likelihood / syn_likelihood_misspec         arguments of the MVN log density (recording stub)
+    gaussian_syn_likelihood / syn_likelihood_misspec         arguments of the MVN log density (recording stub); warton / glasso calls
     gaussian_syn_likelihood_ghurye_olkin / wcon              Price et al. 2018 / Ghurye & Olkin 1969 (transcribed in c20_formulas.py)
     cov_warton                                               ridge formula, ValueError iff gamma outside [0, 1]
   Bounded stand-in / replay vehicle: bounded/c20.py (native floats against scipy and the transcribed formulas)."""
@@ -23,9 +23,10 @@ MANIFEST = {
             'misspecification-adjusted variants and the ridge formula are verified in the computer-algebra tier: the real function bodies are run '
             'over sympy terms and the extracted expressions are shown identical to the formulas transcribed from the papers, for all real values '
             'at the listed concrete shapes. A seeded native float comparison on the real code is the labelled bounded stand-in and replay vehicle.',
-    'note': 'CAS identities hold at the listed shapes only ((n,d) = (4,2),(5,3),(4,1) / (6,2),(8,3),(6,1); vectors of <= 4 parameters). Trusted: '
-            'pyvc engine and CAS runner, sympy, scipy multivariate_normal.logpdf / loggamma and numpy cov / slogdet (models sanity-tested each run), '
-            'floats read as reals. Not contracted: glasso shrinkage, semi-parametric likelihood (outside the statement), the sampler above '
+    'note': 'CAS identities hold at the listed shapes only ((n,d) = (4,2),(5,3),(4,1) / (6,2),(8,3),(6,1); glasso at (4,2); vectors of <= 4 '
+            'parameters; more shapes in the thorough tier). Trusted: pyvc engine and CAS runner, sympy, scipy multivariate_normal.logpdf / loggamma, '
+            'sklearn graphical_lasso (arguments and use of its estimate are checked, not its optimisation) and numpy cov / slogdet (models '
+            'sanity-tested each run), floats read as reals. Not contracted: semi-parametric likelihood (outside the statement), the sampler above '
             '_process_simulated/_init_round (start-up fails under numpy 2.5: F7), shape-(1,) results stored into scalar state slots (F7 class).',
     'technique': 'deductive: path-wise VCs with loop invariants from the real AST (pyvc, z3/cvc5) + computer algebra on the extracted expressions '
                  '(sympy; path forking for piecewise code); bounded stand-in: seeded native comparison against scipy / transcribed formulas',
@@ -45,6 +46,9 @@ TRUSTED_BASE = [
     'exact models in c20_cas.py, sanity-tested against numpy; det(cA) = c^d det(A) is proved as a lemma for d <= 3',
     'numpy RandomState.uniform() in [0, 1); multivariate_normal(mean, cov) is a Gaussian draw around mean (proposal symmetric in transformed space)',
     'object ndarrays with sympy-Integer shapes (SA) behave as ndarrays for the structural numpy functions used (sanity-tested)',
+    'sklearn.covariance.graphical_lasso(emp_cov, alpha) returns the penalised estimate of the matrix it is given, on the scale of that matrix',
+    'CAS path forking (bool() of an undecided sympy relational inside analysed code forks the run) and the two extra sound decision '
+    'strategies of c20_cas.decide (logs of factored arguments split without force; sqrt(A) abstracted to t with t^2 = A)',
 ]
 ASSUMPTIONS = [
     'A-REAL: floats are reals; float literals denote their decimal value; exp/log are the real functions (uninterpreted in the SMT tier)',
@@ -58,7 +62,8 @@ ASSUMPTIONS = [
     'the gamma sampler of the misspecification variants (slice_gamma_mean / slice_gamma_variance) is an opaque callee',
 ]
 NOT_PROVED = [
-    'after the optional whitening/shrinkage: shrinkage="glasso" (sklearn graphical_lasso) is not contracted',
+    'after the optional whitening/shrinkage: for shrinkage="glasso" only the call of sklearn graphical_lasso (argument = sample covariance / '
+    'correlation, alpha = penalty) and the use of its estimate are verified; graphical_lasso itself is assumed; it refuses a single summary (d = 1)',
     'for all simulated-summary matrices: CAS identities are proved at the listed (n, d) only; other shapes are covered by the bounded stand-in',
     'is accepted with probability min(1, ...): proved as "accepted iff u < min(1, ratio)" for the uniform draw u; that u is uniform on [0, 1) is numpy\'s contract',
 ]
